@@ -1,7 +1,13 @@
 // C12 — Instruction read/write information covers what the CPU really does.
 //
-// Case: cfg = [kind, index, state_seed, nstates, flags]   ops[0] = integer choices (operand instantiation)
+// Case: cfg = [kind, index, state_seed, nstates, encsel]   ops[0] = integer choices (operand instantiation)
 //   kind 0  x86-64 host execution of DB form #index: WRITES / READS / FEATURES / REG<->MEM sub-checks
+//           encsel (default 0 = the instance as instantiated, no encoding option): bits 0..2 = encoding-selection options given to the
+//           assembler and to the queries (1 {vex3}, 2 {vex}, 4 {evex}), bits 3..5 = operand/decoration shape (0 as instantiated, 1 plain:
+//           registers 0..15 and no {k}{z}{er}{sae}{1toN}, 2 plain + one vector register 16..31, 3 plain + {k}, 4 plain + {k}{z},
+//           5 plain + {1toN}, 6 plain + {er}|{sae}), bits 6..11 = which register / mask / rounding mode. FEATURES is judged against the
+//           encoding the assembler really emitted (C4/C5 VEX, 62 EVEX, 8F XOP) and the ISA-database forms of that encoding that admit
+//           the operands; combinations the assembler refuses or no database form admits are counted, not executed.
 //   kind 1  x86 consecutive-run report of DB form #index (regIndexRel operands: k+1, xmm+3), API only
 //   kind 2  AArch64 register-list form #index of build/gen/a64_lists.txt, API only
 // Oracle: the host CPU (hostexec/msc) for kind 0; the ISA database syntax for kinds 1 and 2.
@@ -36,7 +42,10 @@ xdb::DB g_db;
 std::vector<Extra> g_x;
 std::vector<A64Form> g_a64;
 std::vector<int> g_x86_runs;      // indexes of x86 forms that imply a consecutive run
+std::set<std::string> g_dual;     // mnemonics that have both a VEX and an EVEX form in the ISA database (64-bit mode, APX forms aside)
+std::set<std::string> g_prefer_evex;   // ... whose VEX forms carry the database's `encodingPreference: EVEX` (EVEX unless {vex}/{vex3} is given)
 bool g_dump = false;
+const int kChoices = 48;
 
 static bool has_word(const std::string& list, const char* w) {
   size_t n = strlen(w), p = 0;
@@ -174,6 +183,15 @@ void vh_init(const vh::Opts& o, vh::Ctx&) {
     for (const xdb::Op& op : g_db.forms[i].ops) if (op.regIndexRel > 0) run = true;
     if (run) g_x86_runs.push_back(int(i));
   }
+  {
+    std::map<std::string, int> enc;
+    for (const xdb::Form& f : g_db.forms) {
+      if (f.is_apx() || !f.mode_ok(64)) continue;
+      if (f.prefix == "VEX") enc[f.name] |= 1; else if (f.prefix == "EVEX") enc[f.name] |= 2;
+      if (f.prefix == "VEX" && f.encPref == "EVEX") g_prefer_evex.insert(f.name);
+    }
+    for (auto& kv : enc) if (kv.second == 3) g_dual.insert(kv.first);
+  }
   g_dump = o.geti("dump", 0) != 0;
   arena_init();
 }
@@ -236,6 +254,7 @@ struct BInst {
   const xdb::Form* f = nullptr; InstId id = 0; std::vector<FOp> ops; int k = 0; bool z = false; int er = -1; bool sae = false;
   std::vector<std::pair<int, uint64_t>> gp_setup; std::vector<VecSetup> vec_setup;
   bool valid = true; std::string why; bool all_reg = true; bool has_mem = false;
+  InstOptions encopt = InstOptions::kNone; int encsel = 0;      // encoding-selection options ({vex3}/{vex}/{evex}); encsel != 0: encoding-selection case
 };
 
 static int reg_bytes(xi::RC rc) {
@@ -447,7 +466,7 @@ static void make_operands(const BInst& bi, uint64_t rip_next, Operand_* out, siz
 }
 
 static InstOptions inst_options(const BInst& bi) {
-  InstOptions opt = InstOptions::kNone;
+  InstOptions opt = bi.encopt;
   if (bi.z) opt |= InstOptions::kX86_ZMask;
   if (bi.sae) opt |= InstOptions::kX86_SAE;
   if (bi.er >= 0) { opt |= InstOptions::kX86_ER; opt |= bi.er == 0 ? InstOptions::kX86_RN_SAE : bi.er == 1 ? InstOptions::kX86_RD_SAE : bi.er == 2 ? InstOptions::kX86_RU_SAE : InstOptions::kX86_RZ_SAE; }
@@ -492,6 +511,145 @@ static Error assemble(const BInst& bi, size_t code_off, size_t& inst_len, std::s
     return Error::kOk;
   }
   return Error::kInvalidState;
+}
+
+
+// ---------------------------------------------------------------------------------------------------------------------
+// Encoding selection: {vex3} / {vex} / {evex} x operand and decoration shapes that force (or do not force) EVEX
+// ---------------------------------------------------------------------------------------------------------------------
+enum { kShapeAsIs = 0, kShapePlain, kShapeHigh, kShapeK, kShapeKZ, kShapeBcst, kShapeErSae, kShapeCount };
+static const char* shape_name(int s) { static const char* n[] = {"as_instantiated", "plain", "high_register", "k", "k_z", "broadcast", "er_sae"}; return n[size_t(s) % kShapeCount]; }
+static std::string optmask_name(int m) {
+  std::string s;
+  if (m & 2) s += "vex";
+  if (m & 1) s += s.empty() ? "vex3" : "+vex3";
+  if (m & 4) s += s.empty() ? "evex" : "+evex";
+  return s.empty() ? "none" : s;
+}
+static InstOptions optmask_options(int m) {
+  InstOptions o = InstOptions::kNone;
+  if (m & 1) o |= InstOptions::kX86_Vex3;
+  if (m & 2) o |= InstOptions::kX86_Vex;
+  if (m & 4) o |= InstOptions::kX86_Evex;
+  return o;
+}
+
+// Does ISA-database form `g` admit the operands and decorations of instance `bi` (operand kinds, register classes, fixed registers,
+// memory / broadcast element sizes, VSIB index class, registers 16..31 and {k}{z}{er}{sae} only where the form has them)?
+static bool form_admits(const xdb::Form& g, const BInst& bi) {
+  if (g.ops.size() != bi.ops.size()) return false;
+  if (bi.k && !g.kmask) return false;
+  if (bi.z && !g.zmask) return false;
+  if (bi.er >= 0 && !g.er) return false;
+  if (bi.sae && !g.sae) return false;
+  for (size_t i = 0; i < g.ops.size(); i++) {
+    const xdb::Op& d = g.ops[i]; const FOp& fo = bi.ops[i];
+    if (fo.kind == 2) { if (!d.is_imm() || d.is_reg() || d.is_mem()) return false; continue; }
+    if (fo.kind == 0) {
+      xi::RC rc; int fx = -1;
+      if (!d.is_reg() || !xi::db_reg_class(d.reg, rc, fx)) return false;
+      bool same = rc == fo.reg.rc || (rc == xi::RC::Gp8Lo && fo.reg.rc == xi::RC::Gp8Hi && fx < 0);
+      if (!same) return false;
+      if (fx >= 0 && fx != fo.reg.id) return false;
+      if (is_vec(rc) && fo.reg.id >= 16 && !g.is_evex()) return false;
+      continue;
+    }
+    const MemI& mi = fo.mem;
+    if (!d.is_mem()) return false;
+    if (mi.index_vec != !d.vsibReg.empty()) return false;
+    if (mi.index_vec) {
+      xi::RC want = d.vsibReg == "xmm" ? xi::RC::Xmm : d.vsibReg == "ymm" ? xi::RC::Ymm : xi::RC::Zmm;
+      if (want != mi.index_rc) return false;
+      if (mi.index >= 16 && !g.is_evex()) return false;
+    }
+    if (mi.bcst > 0) {
+      if (d.bcstSize <= 0 || d.bcstSize != mi.size * 8) return false;
+      if (d.memSize > 0 && d.memSize != mi.bcst * d.bcstSize) return false;
+    } else if (d.memSize > 0 && mi.size > 0 && d.memSize != mi.size * 8) return false;
+  }
+  return true;
+}
+
+// {vex}/{vex3} given (without {evex}) while nothing but a 512-bit memory operand forces EVEX (vcvtneps2bf16 ymm, m512).
+static bool vex_hint_m512_only(const BInst& bi) {
+  int optmask = bi.encsel & 7;
+  if (!(optmask & 3) || (optmask & 4) || bi.k || bi.z || bi.er >= 0 || bi.sae) return false;
+  bool other = false, m64 = false;
+  for (const FOp& fo : bi.ops) {
+    if (fo.kind == 0 && (fo.reg.rc == xi::RC::Zmm || fo.reg.rc == xi::RC::K || (is_vec(fo.reg.rc) && fo.reg.id >= 16))) other = true;
+    if (fo.kind == 1) { if (fo.mem.bcst > 0 || fo.mem.index_vec) other = true; else if (fo.mem.size == 64) m64 = true; }
+  }
+  return m64 && !other;
+}
+
+static bool er_sae_len_ok(const xdb::Form& g, const BInst& bi) {
+  int vl = 0;
+  for (const FOp& fo : bi.ops) if (fo.kind == 0 && is_vec(fo.reg.rc)) vl = std::max(vl, reg_bytes(fo.reg.rc) * 8);
+  return g.l == "512" || g.l == "LIG" || (g.l == "xyz" && g.groupIndex == 2) || vl == 512;
+}
+
+// Rewrites the instance into the requested shape. Returns nullptr, or the reason why the shape does not apply to this instance
+// (`retry`: another reg/mem assignment of the same form may do).
+static const char* apply_shape(BInst& bi, const xdb::Form& f, int shape, int sub, bool& retry) {
+  retry = false;
+  if (shape == kShapeAsIs) return nullptr;
+  for (const FOp& fo : bi.ops) if (fo.kind == 1 && fo.mem.index_vec) return "vsib_form";
+  bi.k = 0; bi.z = false; bi.er = -1; bi.sae = false;
+  for (FOp& fo : bi.ops) {
+    if (fo.kind == 0 && is_vec(fo.reg.rc)) fo.reg.id &= 15;
+    if (fo.kind == 1 && fo.mem.bcst > 0) { fo.mem.bcst = 0; int full = f.ops[size_t(fo.db)].memSize; if (full > 0) fo.mem.size = full / 8; }
+  }
+  std::vector<const xdb::Form*> evex;
+  { auto it = g_db.by_name.find(f.name); if (it != g_db.by_name.end()) for (int idx : it->second) { const xdb::Form& g = g_db.forms[size_t(idx)]; if (g.is_evex() && !g.is_apx() && g.mode_ok(64) && g.ops.size() == bi.ops.size()) evex.push_back(&g); } }
+  switch (shape) {
+    case kShapePlain: return nullptr;
+    case kShapeHigh: {
+      std::vector<size_t> v;
+      for (size_t i = 0; i < bi.ops.size(); i++) {
+        const FOp& fo = bi.ops[i];
+        if (fo.kind != 0 || !is_vec(fo.reg.rc) || fo.implicit) continue;
+        xi::RC rc; int fx = -1; xi::db_reg_class(f.ops[size_t(fo.db)].reg, rc, fx);
+        if (fx < 0) v.push_back(i);
+      }
+      if (v.empty()) return "no_free_vector_register";
+      bi.ops[v[size_t(sub) % v.size()]].reg.id |= 16;
+      return nullptr;
+    }
+    case kShapeK: case kShapeKZ:
+      if (bi.ops.empty()) return "no_operands";
+      bi.k = 1 + sub % 7;
+      if (shape == kShapeKZ) { if (bi.ops[0].kind == 1) { retry = true; return "z_with_memory_destination"; } bi.z = true; }
+      return nullptr;
+    case kShapeBcst: {
+      for (size_t i = 0; i < bi.ops.size(); i++) {
+        FOp& fo = bi.ops[i];
+        if (fo.kind != 1 || fo.implicit) continue;
+        for (const xdb::Form* g : evex) {
+          const xdb::Op& d = g->ops[i];
+          if (d.bcstSize <= 0 || d.memSize <= 0) continue;
+          int n = d.memSize / d.bcstSize;
+          if (n < 2 || n > 64) continue;
+          MemI saved = fo.mem;
+          fo.mem.bcst = n; fo.mem.size = d.bcstSize / 8;
+          if (form_admits(*g, bi)) return nullptr;
+          fo.mem = saved;
+        }
+      }
+      retry = true;
+      return "no_broadcastable_memory_operand";
+    }
+    case kShapeErSae: {
+      if (bi.has_mem) { retry = true; return "has_memory_operand"; }
+      for (const xdb::Form* g : evex) {
+        if (!(g->er || g->sae) || !er_sae_len_ok(*g, bi)) continue;
+        if (g->er) bi.er = sub % 4; else bi.sae = true;
+        if (form_admits(*g, bi)) return nullptr;
+        bi.er = -1; bi.sae = false;
+      }
+      return "no_evex_form_with_er_sae_admits_operands";
+    }
+  }
+  return nullptr;
 }
 
 } // namespace
@@ -767,21 +925,102 @@ static void run_exec(const vh::Case& c, vh::Ctx& ctx) {
   const Extra& x = g_x[fi];
   uint64_t sseed = c.cfg.size() > 2 ? uint64_t(c.cfg[2]) : 1;
   int nstates = c.cfg.size() > 3 ? int(std::max<int64_t>(1, std::min<int64_t>(64, c.cfg[3]))) : 16;
+  int encsel = c.cfg.size() > 4 ? int(uint64_t(c.cfg[4]) & 0xFFF) : 0;
+  int optmask = encsel & 7, shape = ((encsel >> 3) & 7) % kShapeCount, sub = (encsel >> 6) & 63;
   const std::string& mn = f.name;
 
   if (const char* why = exclude_reason(f, x)) { ctx.cls(std::string("excl_") + why); return; }
   static const vh::Op empty;
-  xi::Choices ch(c.ops.empty() ? empty : c.ops[0], 0);
-  BInst bi = build_inst(f, ch);
+  const vh::Op& ch0 = c.ops.empty() ? empty : c.ops[0];
+  BInst bi;
+  if (!optmask && !shape) {
+    xi::Choices ch(ch0, 0);
+    bi = build_inst(f, ch);
+  } else {
+    // encoding-selection case: the shape is imposed on the instance; shapes that need a memory operand / no memory operand retry with
+    // choice vectors derived from the case's own (a pure function of the case)
+    if (shape != kShapeAsIs && !g_dual.count(mn)) { ctx.cls("encsel_shape_ignored_mnemonic_without_vex_and_evex_forms"); shape = kShapeAsIs; }
+    const char* why = nullptr;
+    for (int attempt = 0; attempt < 10; attempt++) {
+      vh::Op derived = ch0;
+      if (attempt) { derived.resize(std::max<size_t>(derived.size(), size_t(kChoices))); for (size_t i = 0; i < derived.size(); i++) derived[i] = int64_t(mix(uint64_t(derived[i]) + uint64_t(attempt) * 0x9E3779B1ull + i) >> 34); }
+      xi::Choices ch(derived, 0);
+      bi = build_inst(f, ch);
+      if (!bi.valid) break;
+      bool retry = false;
+      why = apply_shape(bi, f, shape, sub, retry);
+      if (!why || !retry) break;
+    }
+    if (bi.valid && why) { ctx.cls(std::string("encsel_shape_not_applicable:") + shape_name(shape) + ":" + why); return; }
+    bi.encopt = optmask_options(optmask);
+    bi.encsel = optmask | (shape << 3) | 0x1000;
+  }
   if (!bi.valid) { rare(ctx, "skip_uninstantiable", mn); if (g_dump) printf("uninstantiable: %s\n", bi.why.c_str()); return; }
   bi.id = InstAPI::string_to_inst_id(Arch::kX64, mn.c_str(), mn.size());
   if (bi.id == 0) { rare(ctx, "skip_unknown_mnemonic", mn); return; }
+  if (g_prefer_evex.count(mn) && vex_hint_m512_only(bi)) {     // known finding: excluded by construction once listed
+    std::string key = "features-underreported:vex-hint-m512:" + mn;
+    if (ctx.is_known(key)) { ctx.known_excluded(key); return; }
+  }
   if (exec_built(ctx, bi, f, x, sseed, nstates, true)) {
     // SIGILL with {k}/{z}/{er}/{sae}: legality of a decoration per form is C01/C13's subject; judge the undecorated instruction
     rare(ctx, "sigill_with_decoration_retried_plain", mn);
     bi.k = 0; bi.z = false; bi.er = -1; bi.sae = false;
     exec_built(ctx, bi, f, x, sseed, nstates, false);
   }
+}
+
+// FEATURES vs the ISA database: the encoding class is read off the emitted bytes; the judge is the set of database forms of the mnemonic
+// in THAT class which admit the operands (the form the instance was built from when it is in that class, otherwise its siblings).
+struct FeatVerdict { bool judged = false, satisfied = false, strict = false, sibling = false, exact = false; std::string pc, lacking; };
+
+static std::string emitted_class(const uint8_t* bytes, size_t ilen) {
+  size_t bp = 0;
+  while (bp < ilen && (bytes[bp] == 0x66 || bytes[bp] == 0xF2 || bytes[bp] == 0xF3 || bytes[bp] == 0x67 || bytes[bp] == 0x2E || bytes[bp] == 0x36 || bytes[bp] == 0x3E || bytes[bp] == 0x26 || bytes[bp] == 0x64 || bytes[bp] == 0x65 || bytes[bp] == 0xF0)) bp++;
+  return bp < ilen && bytes[bp] == 0x62 ? "EVEX" : bp < ilen && (bytes[bp] == 0xC4 || bytes[bp] == 0xC5) ? "VEX" : bp < ilen && bytes[bp] == 0x8F && bp + 1 < ilen && (bytes[bp + 1] & 0x1F) >= 8 ? "XOP" : "";
+}
+
+static FeatVerdict judge_features(vh::Ctx& ctx, const BInst& bi, const xdb::Form& f, const uint8_t* bytes, size_t ilen, const CpuFeatures& feats) {
+  FeatVerdict r;
+  const std::string& mn = f.name;
+  r.pc = emitted_class(bytes, ilen);
+  bool wide = bi.er >= 0 || bi.sae;
+  for (const FOp& fo : bi.ops) { if (fo.kind == 0 && fo.reg.rc == xi::RC::Zmm) wide = true; if (fo.kind == 1 && fo.mem.index_vec && fo.mem.index_rc == xi::RC::Zmm) wide = true; }
+  // AVX512_F is taken to imply AVX2/AVX/FMA/F16C, AVX2 to imply AVX; AVX512_VL is not required for 512-bit/scalar-rounding forms.
+  CpuFeatures have = feats;
+  auto& ids = feature_ids();
+  auto addf = [&](const char* n) { auto it = ids.find(n); if (it != ids.end()) have.add(it->second); };
+  auto hasf = [&](const char* n) { auto it = ids.find(n); return it != ids.end() && have.has(it->second); };
+  if (hasf("AVX512_F")) { addf("AVX2"); addf("AVX"); addf("FMA"); addf("F16C"); }
+  if (hasf("AVX2")) addf("AVX");
+  std::vector<const xdb::Form*> cands, all;
+  auto fit = g_db.by_name.find(mn);
+  if (fit != g_db.by_name.end()) for (int idx : fit->second) {
+    const xdb::Form& df = g_db.forms[size_t(idx)];
+    if (df.prefix != r.pc || df.is_apx() || !df.mode_ok(64)) continue;
+    all.push_back(&df);
+    bool adm = form_admits(df, bi);
+    if (&df == &f && !adm && !bi.encsel) { adm = true; rare(ctx, "admission_matcher_rejects_the_instantiated_form", mn); }   // plain sweep: the form the instance was built from always counts
+    if (adm) cands.push_back(&df);
+  }
+  r.strict = !cands.empty();
+  if (!r.strict && !bi.encsel) cands = all;      // plain sweep: fall back to 'some form of the mnemonic in the emitted encoding class'
+  if (cands.empty()) return r;
+  r.judged = true;
+  r.sibling = f.prefix != r.pc;
+  for (const xdb::Form* df : cands) {
+    std::string miss; CpuFeatures need;
+    if (!df->ext.empty()) for (const std::string& e : xdb::split(df->ext, ',')) {
+      auto it = ids.find(e);
+      if (it == ids.end()) { rare(ctx, "db_extension_without_asmjit_feature", e); continue; }
+      if (e == "AVX512_VL" && wide) continue;
+      need.add(it->second);
+      if (!have.has(it->second)) { if (!miss.empty()) miss += ","; miss += e; }
+    }
+    if (miss.empty()) { r.satisfied = true; r.exact = need == feats; if (r.exact) break; continue; }
+    if (r.lacking.empty()) r.lacking = miss;
+  }
+  return r;
 }
 
 static bool exec_built(vh::Ctx& ctx, BInst& bi, const xdb::Form& f, const Extra& x, uint64_t sseed, int nstates, bool allow_retry) {
@@ -792,7 +1031,10 @@ static bool exec_built(vh::Ctx& ctx, BInst& bi, const xdb::Form& f, const Extra&
   if (ae != Error::kOk) {
     bool any_impl = false; for (const FOp& fo : bi.ops) if (fo.implicit) any_impl = true;
     if (any_impl && assemble(bi, kCodeMain, ilen, &text, -1, nullptr, true) == Error::kOk) { dropped = true; rare(ctx, "emitted_without_implicit_operands", mn); }
-    else { rare(ctx, "rejected_by_assembler", mn); if (g_dump) printf("rejected: %s err=%u\n", mn.c_str(), unsigned(ae)); return false; }
+    else {
+      if (bi.encsel) ctx.cls(std::string("encsel_rejected_by_assembler:") + optmask_name(bi.encsel & 7) + ":" + shape_name((bi.encsel >> 3) & 7));
+      rare(ctx, "rejected_by_assembler", mn); if (g_dump) printf("rejected: %s err=%u\n", mn.c_str(), unsigned(ae)); return false;
+    }
   }
   ctx.cls("assembled");
 
@@ -815,41 +1057,50 @@ static bool exec_built(vh::Ctx& ctx, BInst& bi, const xdb::Form& f, const Extra&
   desc += " ::" + rw_text(bi, rw) + " features=" + features_text(feats);
   if (g_dump) printf("%s\n", desc.c_str());
 
-  // FEATURES vs the ISA database (the host has almost every extension, so under-reporting cannot be seen through SIGILL): some
-  // database form of this mnemonic in the encoding class AsmJit chose (legacy / VEX / EVEX / XOP) must have all its extensions
-  // reported. AVX512_F is taken to imply AVX2/AVX/FMA/F16C, AVX2 to imply AVX; AVX512_VL is not required for 512-bit/scalar-rounding forms.
+  // FEATURES vs the ISA database (the host has almost every extension, so under-reporting cannot be seen through SIGILL): some database
+  // form of this mnemonic in the encoding AsmJit really emitted (legacy / VEX / EVEX / XOP) that admits these operands must have all its
+  // extensions reported.
   if (fe == Error::kOk) {
-    const uint8_t* bytes = g_code + kCodeMain; size_t bp = 0;
-    while (bp < ilen && (bytes[bp] == 0x66 || bytes[bp] == 0xF2 || bytes[bp] == 0xF3 || bytes[bp] == 0x67 || bytes[bp] == 0x2E || bytes[bp] == 0x36 || bytes[bp] == 0x3E || bytes[bp] == 0x26 || bytes[bp] == 0x64 || bytes[bp] == 0x65 || bytes[bp] == 0xF0)) bp++;
-    std::string pc = bp < ilen && bytes[bp] == 0x62 ? "EVEX" : bp < ilen && (bytes[bp] == 0xC4 || bytes[bp] == 0xC5) ? "VEX" : bp < ilen && bytes[bp] == 0x8F && bp + 1 < ilen && (bytes[bp + 1] & 0x1F) >= 8 ? "XOP" : "";
-    bool wide = bi.er >= 0 || bi.sae;
-    for (const FOp& fo : bi.ops) { if (fo.kind == 0 && fo.reg.rc == xi::RC::Zmm) wide = true; if (fo.kind == 1 && fo.mem.index_vec && fo.mem.index_rc == xi::RC::Zmm) wide = true; }
-    CpuFeatures have = feats;
-    auto& ids = feature_ids();
-    auto addf = [&](const char* n) { auto it = ids.find(n); if (it != ids.end()) have.add(it->second); };
-    auto hasf = [&](const char* n) { auto it = ids.find(n); return it != ids.end() && have.has(it->second); };
-    if (hasf("AVX512_F")) { addf("AVX2"); addf("AVX"); addf("FMA"); addf("F16C"); }
-    if (hasf("AVX2")) addf("AVX");
-    bool any_form = false, satisfied = false; std::string lacking;
-    auto fit = g_db.by_name.find(mn);
-    if (fit != g_db.by_name.end()) for (int idx : fit->second) {
-      const xdb::Form& df = g_db.forms[size_t(idx)];
-      if (df.prefix != pc || df.is_apx() || !df.mode_ok(64)) continue;
-      any_form = true;
-      std::string miss;
-      if (!df.ext.empty()) for (const std::string& e : xdb::split(df.ext, ',')) {
-        auto it = ids.find(e);
-        if (it == ids.end()) { rare(ctx, "db_extension_without_asmjit_feature", e); continue; }
-        if (e == "AVX512_VL" && wide) continue;
-        if (!have.has(it->second)) { if (!miss.empty()) miss += ","; miss += e; }
+    FeatVerdict fv = judge_features(ctx, bi, f, g_code + kCodeMain, ilen, feats);
+    int optmask = bi.encsel & 7;
+    bool pe = g_prefer_evex.count(mn) != 0;
+    if (!fv.judged) {
+      if (bi.encsel) { rare(ctx, "encsel_no_db_form_of_emitted_encoding_admits_operands", mn + "(" + optmask_name(optmask) + "," + shape_name((bi.encsel >> 3) & 7) + ")"); return false; }   // outside the database: encoder's business (C01/C13)
+      rare(ctx, "no_db_form_in_emitted_encoding_class", mn);
+    } else {
+      ctx.cls("features_checked");
+      ctx.cls(fv.strict ? "features_checked_against_forms_admitting_the_operands" : "features_checked_against_encoding_class_only");
+      if (fv.sibling) ctx.cls("features_checked_emitted_encoding_differs_from_instantiated_form");
+      if (fv.satisfied) ctx.cls(fv.exact ? "features_equal_to_a_db_form" : "features_superset_of_a_db_form");
+      if (bi.encsel) {
+        ctx.cls("features_checked_encsel");
+        ctx.cls("features_checked_opt_" + optmask_name(optmask));
+        if (optmask & 1) ctx.cls("features_checked_vex3");
+        if (optmask & 2) ctx.cls("features_checked_vex");
+        if (optmask & 4) ctx.cls("features_checked_evex");
+        ctx.cls(std::string("features_checked_shape_") + shape_name((bi.encsel >> 3) & 7));
+        ctx.cls("features_checked_encsel_emitted_" + (fv.pc.empty() ? std::string("legacy") : fv.pc));
+        if (g_dual.count(mn)) ctx.cls("features_checked_encsel_vex_and_evex_mnemonics");
       }
-      if (miss.empty()) { satisfied = true; break; }
-      if (lacking.empty()) lacking = miss;
+      if (pe) { ctx.cls("features_checked_prefer_evex_forms"); ctx.cls("prefer_evex:" + mn + ":" + optmask_name(optmask) + ":" + fv.pc); }
+      if (!fv.satisfied) {
+        bool bcst = false; for (const FOp& fo : bi.ops) if (fo.kind == 1 && fo.mem.bcst > 0) bcst = true;
+        // attribute the failure to the option only if the same instance without it is judged fine
+        std::string cause;
+        if (optmask) {
+          BInst b2 = bi; b2.encopt = InstOptions::kNone;
+          size_t l2 = 0; CpuFeatures f2;
+          BaseInst i2(b2.id, inst_options(b2)); if (b2.k) i2.set_extra_reg(x86::KReg(uint32_t(b2.k)));
+          if (assemble(b2, kCodeAlt, l2, nullptr, -1, nullptr, dropped) == Error::kOk) {
+            Operand_ o2[8]; size_t n2 = 0; make_operands(b2, uint64_t(uintptr_t(g_code)) + kCodeAlt + l2, o2, n2);
+            if (InstAPI::query_features(Arch::kX64, i2, o2, n2, &f2) == Error::kOk) { FeatVerdict v2 = judge_features(ctx, b2, f, g_code + kCodeAlt, l2, f2); if (!v2.judged || v2.satisfied) cause = "opt-" + optmask_name(optmask) + ":"; }
+          }
+        }
+        if (pe && fv.pc == "EVEX" && vex_hint_m512_only(bi)) cause = "vex-hint-m512:";
+        ctx.fail_unless_known(std::string("features-underreported:") + (bcst ? "broadcast:" : "") + cause + mn, desc + " :: the instruction is " + (fv.pc.empty() ? std::string("legacy") : fv.pc) + "-encoded, and every " + (fv.pc.empty() ? std::string("legacy") : fv.pc) +
+                              "-encoded ISA-database form of it" + (fv.strict ? " that admits these operands" : "") + " requires an extension query_features does not report (e.g. " + fv.lacking + ")");
+      }
     }
-    bool bcst = false; for (const FOp& fo : bi.ops) if (fo.kind == 1 && fo.mem.bcst > 0) bcst = true;
-    if (any_form && !satisfied)
-      ctx.fail_unless_known(std::string("features-underreported:") + (bcst ? "broadcast:" : "") + mn, desc + " :: every " + (pc.empty() ? std::string("legacy") : pc) + "-encoded ISA-database form of this instruction requires an extension query_features does not report (e.g. " + lacking + ")");
-    else if (!any_form) rare(ctx, "no_db_form_in_emitted_encoding_class", mn);
   }
   RwView v = make_view(bi, rw, x);
   if (!v.api_violation.empty()) ctx.fail_unless_known(std::string("unreported-read:") + (v.api_violation[0] == '{' ? "kmask:" : "pointer:") + mn, desc + " :: " + v.api_violation);
@@ -954,7 +1205,11 @@ static bool exec_built(vh::Ctx& ctx, BInst& bi, const xdb::Form& f, const Extra&
         memcpy(&pre2.scr[moff], reg_bytes_ptr(pre, p), ncopy);
         int sa = run_code(kCodeMain, pre, post), sb = run_code(kCodeAlt, pre2, post2);
         if (sa != 0 || sb != 0) {
-          if (sa == 0 && sb == SIGILL) { std::string cause = (bi.sae || bi.er >= 0) ? "sae-er:" : (bi.z && o.is_write()) ? "zmask-dest:" : "";
+          if (sa == 0 && sb == SIGILL) {
+            // the memory form may be encoded differently (a register 16..31 replaced under {vex}: VEX instead of EVEX) and need a feature the host lacks
+            CpuFeatures fm; std::string miss2;
+            if (InstAPI::query_features(Arch::kX64, inst, ops2, n2, &fm) == Error::kOk && !host_has_all(fm, &miss2)) { rare(ctx, "regmem_memory_form_needs_feature_missing_on_host", mn + "(" + miss2 + ")"); break; }
+            std::string cause = (bi.sae || bi.er >= 0) ? "sae-er:" : (bi.z && o.is_write()) ? "zmask-dest:" : "";
             ctx.fail_unless_known("regmem-not-replaceable:" + cause + mn, desc + " :: " + what + " (" + text2 + "), but the memory form raises SIGILL"); break; }
           ctx.cls("regmem_state_discarded_fault"); continue;
         }
@@ -972,7 +1227,8 @@ static bool exec_built(vh::Ctx& ctx, BInst& bi, const xdb::Form& f, const Extra&
   ctx.cls(bi.has_mem ? "executed_with_memory_operand" : "executed_register_only");
   if (bi.k) ctx.cls(bi.z ? "executed_with_k_z" : "executed_with_k");
   ctx.cls(f.prefix.empty() ? "enc_legacy" : "enc_" + f.prefix);
-  if (good >= 8) { ctx.nontrivial(); if (ctx.want_sample()) ctx.sample(desc + " :: " + std::to_string(good) + " states"); }
+  if (bi.encsel) ctx.cls("encsel_executed");
+  if (good >= (bi.encsel ? std::min(nstates, 8) : 8)) { ctx.nontrivial(); if (ctx.want_sample()) ctx.sample(desc + " :: " + std::to_string(good) + " states"); }
   else rare(ctx, "executed_in_fewer_than_8_states", mn);
   return false;
 }
@@ -1135,8 +1391,6 @@ static void run_a64_list(const vh::Case& c, vh::Ctx& ctx) {
 // =====================================================================================================================
 // Part 6 — driver glue
 // =====================================================================================================================
-static const int kChoices = 48;
-
 void vh_run(const vh::Case& c, vh::Ctx& ctx) {
   int kind = c.cfg.empty() ? 0 : int(uint64_t(c.cfg[0]) % 3);
   if (kind == 0) run_exec(c, ctx);
@@ -1150,18 +1404,55 @@ static void fill_choices(vh::Case& out, uint64_t seed) {
   out.ops.push_back(chv);
 }
 
-// Deterministic sweep: every x86 form x R assignments (kind 0), every run form (kind 1), every AArch64 list form x 2 (kind 2).
+// Encoding-selection sweep: every non-excluded VEX / EVEX form of a mnemonic that has both encodings in the database x every applicable
+// shape x {no option, {vex3}, {vex}, {evex}}, plus the option combinations for the first shape (all 8 option sets x every shape for the
+// "prefer EVEX" instructions).
+static const std::vector<std::pair<int, int>>& enc_sweep() {
+  static std::vector<std::pair<int, int>> v; static bool built = false;
+  if (built) return v;
+  built = true;
+  uint64_t n = 0;
+  for (size_t fi = 0; fi < g_db.forms.size(); fi++) {
+    const xdb::Form& f = g_db.forms[fi];
+    if ((f.prefix != "VEX" && f.prefix != "EVEX") || !g_dual.count(f.name) || exclude_reason(f, g_x[fi])) continue;
+    bool vsib = !f.vsibReg.empty(), has_zmm = false, can_bcst = false, can_er = false;
+    for (const xdb::Op& d : f.ops) { if (!d.vsibReg.empty()) vsib = true; if (d.reg == "zmm") has_zmm = true; }
+    for (int idx : g_db.by_name[f.name]) {
+      const xdb::Form& g = g_db.forms[size_t(idx)];
+      if (!g.is_evex() || g.is_apx() || !g.mode_ok(64) || g.ops.size() != f.ops.size()) continue;
+      for (const xdb::Op& d : g.ops) if (d.bcstSize > 0) can_bcst = true;
+      if ((g.er || g.sae) && (g.l == "LIG" || has_zmm || &g == &f)) can_er = true;
+    }
+    std::vector<int> shapes;
+    if (vsib) shapes = {kShapeAsIs};
+    else { shapes = {kShapePlain, kShapeHigh, kShapeK, kShapeKZ}; if (can_bcst) shapes.push_back(kShapeBcst); if (can_er) shapes.push_back(kShapeErSae); }
+    bool pe = g_prefer_evex.count(f.name) != 0;
+    for (int sh : shapes) for (int om = 0; om < 8; om++) {
+      bool single = om == 0 || om == 1 || om == 2 || om == 4;
+      if (!single && !pe && sh != shapes[0]) continue;
+      if (!om && !sh) continue;
+      v.push_back({int(fi), om | (sh << 3) | (int(mix(n++) & 63) << 6)});
+    }
+  }
+  return v;
+}
+
+// Deterministic sweep: every x86 form x R assignments (kind 0), every run form (kind 1), every AArch64 list form x 2 (kind 2), the
+// encoding-selection sweep (kind 0 with encsel, `encstates` machine states each).
 bool vh_enum(const vh::Opts& o, uint64_t k, vh::Case& out) {
   uint64_t reps = uint64_t(o.geti("reps", 1)), states = uint64_t(o.geti("states", 16));
-  uint64_t nf = g_db.forms.size(), nx = g_x86_runs.size() * 4, na = g_a64.size() * 2;
-  uint64_t total = nf * reps + nx + na;
+  uint64_t encreps = uint64_t(o.geti("encreps", 1)), encstates = uint64_t(o.geti("encstates", 3));
+  const std::vector<std::pair<int, int>>& es = enc_sweep();
+  uint64_t nf = g_db.forms.size(), nx = g_x86_runs.size() * 4, na = g_a64.size() * 2, ne = es.size() * encreps;
+  uint64_t total = nf * reps + nx + na + ne;
   uint64_t g = k * uint64_t(o.workers) + uint64_t(o.worker);
   if (g >= total) return false;
   uint64_t base = mix(((o.seed / 1000) + 1) * 1000003ull);   // the driver passes seed*1000 + worker: keep the sweep identical across workers
   out = vh::Case();
   if (g < nf * reps) { out.cfg = {0, int64_t(g % nf), int64_t(mix(base + g) >> 34), int64_t(states), 0}; fill_choices(out, base + g * 7 + 1); }
   else if (g < nf * reps + nx) { uint64_t q = g - nf * reps; out.cfg = {1, int64_t(q % g_x86_runs.size()), 0, 0, 0}; fill_choices(out, base + q * 13 + 5); }
-  else { uint64_t q = g - nf * reps - nx; out.cfg = {2, int64_t(q % g_a64.size()), 0, 0, 0}; fill_choices(out, base + q * 17 + 3); }
+  else if (g < nf * reps + nx + na) { uint64_t q = g - nf * reps - nx; out.cfg = {2, int64_t(q % g_a64.size()), 0, 0, 0}; fill_choices(out, base + q * 17 + 3); }
+  else { uint64_t q = g - nf * reps - nx - na; const auto& e = es[size_t(q % es.size())]; out.cfg = {0, int64_t(e.first), int64_t(mix(base + g + 99) >> 34), int64_t(encstates), int64_t(e.second)}; fill_choices(out, base + q * 19 + 11); }
   return true;
 }
 
@@ -1169,13 +1460,14 @@ rc::Gen<vh::Case> vh_gen(const vh::Opts& o) {
   using namespace rc;
   int nforms = int(g_db.forms.size());
   int states = int(o.geti("states", 16));
-  return gen::apply([states](int kindsel, int form, int sseed, std::vector<int> ch) {
+  return gen::apply([states](int kindsel, int form, int sseed, std::vector<int> ch, int encp, int encsel) {
       vh::Case c; int kind = kindsel < 94 ? 0 : kindsel < 96 ? 1 : 2;
-      c.cfg = {kind, form, sseed, states, 0};
+      c.cfg = {kind, form, sseed, states, kind == 0 && encp < 30 ? encsel : 0};
       vh::Op op; for (int v : ch) op.push_back(v);
       c.ops.push_back(op); return c; },
     vh::irange<int>(0, 99), vh::irange<int>(0, nforms - 1), vh::irange<int>(0, 0x3fffffff),
-    gen::container<std::vector<int>>(size_t(kChoices), vh::irange<int>(0, 0x3fffffff)));
+    gen::container<std::vector<int>>(size_t(kChoices), vh::irange<int>(0, 0x3fffffff)),
+    vh::irange<int>(0, 99), vh::irange<int>(1, 0xFFF));
 }
 
 void vh_fini(const vh::Opts&, vh::Ctx& ctx) {
